@@ -72,10 +72,10 @@ class SimRawFile(io.RawIOBase):
     consults the fault plan.
     """
 
-    def __init__(self, fs, path, mode, name):
+    def __init__(self, fs, path, mode, name, closefd=True, opener=None):
         super().__init__()
         self.fs = fs
-        self.inner = io.FileIO(path, mode)
+        self.inner = io.FileIO(path, mode, closefd=closefd, opener=opener)
         self.name = name
         self.mode = self.inner.mode
         self.n_writes = 0
@@ -276,10 +276,19 @@ class SimFS:
     # -- the `open` seam
     def open(self, file, mode='r', buffering=-1, encoding=None, errors=None, newline=None,
              closefd=True, opener=None):
-        path = os.fspath(file)
-        if isinstance(path, bytes):
-            path = path.decode()
-        path = os.path.abspath(path)
+        if isinstance(file, int):
+            # the builtin accepts an already open descriptor (e.g. from tempfile.mkstemp): so does the seam
+            try:
+                path = os.readlink(f'/proc/self/fd/{file}')
+            except OSError:
+                path = f'<fd {file}>'
+            target = file
+        else:
+            path = os.fspath(file)
+            if isinstance(path, bytes):
+                path = path.decode()
+            path = os.path.abspath(path)
+            target = path
         rec = OpenRec(path, mode, encoding, newline, errors, buffering, self.op_index)
         self.counters['opens'] += 1
         for f in self.active_faults('open'):
@@ -298,7 +307,7 @@ class SimFS:
         writable = creating or '+' in m
         rawmode = ''.join(c for c in 'rwxa' if c in m) + ('+' if '+' in m else '')
         self.opens.append(rec)
-        raw = SimRawFile(self, path, rawmode, os.path.basename(path))   # raises like the real open does
+        raw = SimRawFile(self, target, rawmode, os.path.basename(path), closefd=closefd, opener=opener)   # raises like the real open does
         rec.raw = raw
         bs = self.buffer_size if buffering in (-1, None) or buffering < 0 else buffering
         if readable and writable:
